@@ -1,7 +1,7 @@
 (* Properties_C09.v — property C09: copies and persisted data reproduce states and planner graphs exactly.
    Statements only, over CodecModel.v (archive framing abstracted to tokens; boost's byte format not modelled). *)
 From Coq Require Import List ZArith Bool Arith.
-From OmplV Require Import CodecModel CodecProofs.
+From OmplV Require Import CodecModel CodecProofs CodecPdProofs.
 Import ListNotations.
 
 (* serialize then deserialize yields the original state for every nesting of compound spaces, wherever the
@@ -43,6 +43,26 @@ Theorem C09_mark_goal_correct :
     starts (mark_goal i g) = starts g.
 Proof. exact mark_goal_correct. Qed.
 
+(* a planner-data graph (vertices with tags and states, edges with weights, start / goal marks held as sorted index
+   vectors) stored and loaded back: same vertices in index order, same edges, same start marks; a goal mark comes back
+   unless the vertex is also marked start (the stored vertex type has a single value: known finding
+   C09-start-and-goal-vertex, characterised exactly); with disjoint marks the graph comes back unchanged *)
+Theorem C09_load_store_planner_data :
+  forall sp g, pd_wf sp g -> load_pd sp (store_pd sp g) = LOk (mkPD (verts g) (edges g) (starts g) (goals_eff g)).
+Proof. exact load_store_pd. Qed.
+Theorem C09_load_store_planner_data_disjoint_marks :
+  forall sp g, pd_wf sp g -> (forall i, In i (starts g) -> ~ In i (goals g)) -> load_pd sp (store_pd sp g) = LOk g.
+Proof. exact load_store_pd_disjoint. Qed.
+Theorem C09_planner_data_rejects_every_strict_prefix :
+  forall sp g k, pd_wf sp g -> (k < length (store_pd sp g))%nat -> load_pd sp (firstn k (store_pd sp g)) = LErr.
+Proof. exact load_pd_rejects_every_strict_prefix. Qed.
+Theorem C09_planner_data_rejects_wrong_marker :
+  forall sp m nv ne sg rest, m <> PD_MARKER -> load_pd sp (TMarker m :: TCount nv :: TCount ne :: TSig sg :: rest) = LErr.
+Proof. exact load_pd_rejects_wrong_marker. Qed.
+Theorem C09_planner_data_rejects_other_signature :
+  forall sp sp' g, signature sp' <> signature sp -> load_pd sp' (store_pd sp g) = LErr.
+Proof. exact load_pd_rejects_other_signature. Qed.
+
 Print Assumptions C09_deserialize_serialize.
 Print Assumptions C09_serialization_length.
 Print Assumptions C09_reals_roundtrip.
@@ -52,6 +72,11 @@ Print Assumptions C09_load_rejects_wrong_marker.
 Print Assumptions C09_load_rejects_other_signature.
 Print Assumptions C09_binary_search_exact_on_sorted.
 Print Assumptions C09_mark_goal_correct.
+Print Assumptions C09_load_store_planner_data.
+Print Assumptions C09_load_store_planner_data_disjoint_marks.
+Print Assumptions C09_planner_data_rejects_every_strict_prefix.
+Print Assumptions C09_planner_data_rejects_wrong_marker.
+Print Assumptions C09_planner_data_rejects_other_signature.
 
 Local Open Scope Z_scope.
 (* non-vacuity: SE(2) x discrete x (R^2 x SO(3)) *)
@@ -76,3 +101,12 @@ Example C09_start_and_goal_vertex_refuted :
   | LErr => False
   end.
 Proof. vm_compute. repeat split. Qed.
+
+(* non-vacuity for the planner-data theorems: three vertices, two edges, vertex 0 start, vertex 2 goal *)
+Example C09_planner_data_nonvacuous :
+  let g := mkPD [(7%Z, [CD 1]); (0%Z, [CD 2]); (3%Z, [CD 5])] [(0, 1, 10%Z); (1, 2, 20%Z)]%nat [0]%nat [2]%nat in
+  pd_wf (SReal 1) g /\ load_pd (SReal 1) (store_pd (SReal 1) g) = LOk g /\ length (store_pd (SReal 1) g) = 9%nat.
+Proof.
+  cbv zeta. split; [|split; vm_compute; reflexivity]. unfold pd_wf. cbn [verts starts goals length].
+  split; [repeat constructor; eexists; vm_compute; reflexivity|]. split; [repeat constructor|]. split; [repeat constructor|]. split; repeat constructor.
+Qed.
